@@ -6,7 +6,7 @@
    Outage = BLinkDown cause=script (or the first failing client-side write of a connection) while Close has not been called. Judged at the end of the scenario (Quiesced). *)
 EXTENDS MonCommon
 
-MonInit == [ tokens |-> 0, dials |-> 0, cuts |-> <<>>, accepts |-> <<>>, connects |-> <<>>, disc |-> 0, recon |-> 0, lastReconI |-> 0,
+MonInit == [ tokens |-> 0, dials |-> 0, cuts |-> <<>>, accepts |-> <<>>, connects |-> <<>>, disc |-> 0, recon |-> 0, lastReconI |-> 0, hung |-> 0,
              streams |-> <<>>,      \* [sid, kind ("up"|"down"), obj, alias, openI, closeCallI, closedErr, streamClosedErr, resumed]
              resumeReqs |-> <<>>,   \* [sid, c, alias, i, kind]
              resumeResps |-> <<>>,  \* [sid, c, code]
@@ -33,6 +33,7 @@ MonStep(m, e) ==
       [] e.ev = "BRecvReq" /\ e.kind = "ConnectRequest" -> [m EXCEPT !.connects = Append(@, [c |-> e.c, token |-> e.token])]
       [] e.ev = "Disconnected" -> IF m.closeConnI = 0 THEN [m EXCEPT !.disc = @ + 1] ELSE m
       [] e.ev = "Reconnected" -> [m EXCEPT !.recon = @ + 1, !.lastReconI = e.i]
+      [] e.ev = "Watchdog" -> [m EXCEPT !.hung = @ + 1]        \* an API call that had not returned when the harness's watchdog fired (all calls carry contexts well below it)
       [] e.ev = "BRecvReq" /\ e.kind = "DownstreamOpenRequest" -> m
       [] e.ev = "ApiRet" /\ e.op \in {"OpenUpstream", "OpenDownstream"} /\ e.err = "" ->
             [m EXCEPT !.streams = Append(@, [sid |-> e.sid, kind |-> IF e.op = "OpenUpstream" THEN "up" ELSE "down", openI |-> e.i,
@@ -84,6 +85,7 @@ OtherStreamClosed(m) == Recovered(m) /\ \E x \in OpenAtLastCut(m) : ReportedClos
                         /\ (\E r \in RangeS(m.resumeResps) : r.sid = x.sid /\ r.c = LastInc(m) /\ r.code = 1)
 \* requests issued around the outage must not fail with a connection error nor vanish
 CallFailed(m) == \E c \in RangeS(m.calls) : c.err # "" /\ (m.closeConnI = 0 \/ c.callI < m.closeConnI)
+CallHung(m) == m.hung > 0
 CallDropped(m) == \E c \in RangeS(m.calls) : c.op = "SendMeta" /\ c.err = "" /\ ~\E q \in RangeS(m.metaReqs) : q.tag = c.tag
 \* notifications once per outage
 NotifyWrong(m) == Recovered(m) /\ (m.disc # NOut(m) \/ m.recon # NOut(m))
@@ -100,7 +102,7 @@ MonVerdict(m) ==
     IF ~m.quiesced THEN Clause("TokenNotFresh", TokenNotFresh(m)) \cup Clause("ResumeForeignId", ResumeForeignId(m))
     ELSE Clause("TokenNotFresh", TokenNotFresh(m)) \cup Clause("NoRecovery", NoRecovery(m)) \cup Clause("StreamDetached", StreamDetached(m))
          \cup Clause("ResumeForeignId", ResumeForeignId(m)) \cup Clause("RefusedNotClosed", RefusedNotClosed(m))
-         \cup Clause("OtherStreamClosed", OtherStreamClosed(m)) \cup Clause("CallFailed", CallFailed(m)) \cup Clause("CallDropped", CallDropped(m))
+         \cup Clause("OtherStreamClosed", OtherStreamClosed(m)) \cup Clause("CallFailed", CallFailed(m)) \cup Clause("CallDropped", CallDropped(m)) \cup Clause("CallHung", CallHung(m))
          \cup Clause("NotifyWrong", NotifyWrong(m)) \cup Clause("ResumedNotifyWrong", ResumedNotifyWrong(m)) \cup Clause("ProbeFailed", ProbeFailed(m))
 MonStats(m) == [ outages |-> NOut(m), recovered |-> IF Recovered(m) THEN 1 ELSE 0, streams |-> Len(m.streams), resumeReqs |-> Len(m.resumeReqs),
                  calls |-> Len(m.calls), probes |-> Len(m.probes), refused |-> Cardinality({ x \in RangeS(m.streams) : ResumeRefused(m, x) }),
